@@ -3,6 +3,8 @@
      class: 0 ok, 1 ErrEmptyPort, 2 ErrInvalidFormat, 3 ErrPortOutOfRange, 9 other
      split*: net.SplitHostPort(result) as computed by Go (only meaningful for class 0)
    stdout: one line per disagreement:  MISMATCH kind hex(input) details...
+           VMCASE hex(input) hex(result) <coq term>   (only with VM_SAMPLE set: the model's outputs for a sampled case,
+                  re-evaluated inside Coq by the check — util.ml)
            final line: SUMMARY n=<cases> mismatches=<k> ok=<a> empty=<b> invalid=<c> range=<d> pinned=<p> *)
 open Model
 open Util
@@ -26,6 +28,10 @@ let () =
          cls.(mc) <- cls.(mc) + 1;
          let pin = class_pinned s in
          if pin then incr pinned;
+         if vm_pick !n then
+           Printf.printf "VMCASE\t%s\t%s\t(%s, %s, %s, %s, %s)\n" hin hres
+             (coq_n (vres_class m)) (coq_nlist mres) (coq_bool pin) (coq_bool (roundtrip_okb s ires))
+             (coq_option (coq_pair coq_nlist coq_nlist) (split_host_port ires));
          if mc <> ic then begin
            incr mism;
            Printf.printf "MISMATCH class %s impl=%d model=%d pinned=%b\n" hin ic mc pin
